@@ -1,5 +1,6 @@
 SPECIFICATION MCSpec
 CONSTANTS PL = 2 CidLen = 1 CellId = 0 NoCrypto = {2} ExtendId = 3 MaxRelayEarly = 2 Pinned = TRUE
           MaxOps = 0 MaxRecv = 1 MaxLen = 6 Mode = "bytes"
-CONSTANTS Pkts <- MCPkts Lids <- MCLids Pfxs <- MCPfxs Tuns <- MCTuns
+CONSTANTS Pkts <- MCPkts Lids <- MCLids Pfxs <- MCPfxs Tuns <- MCTuns XPkts <- MCXPkts Vias <- MCVias
+          Dev = {} Ipv8Versions = {2, 3} TunOps = {}
 INVARIANT AllListenersServed
